@@ -129,6 +129,26 @@ def _fold(node):
                 if v is not None:
                     return ast.copy_location(ast.Constant(value=v), n)
             return n
+
+        def visit_JoinedStr(self, n):
+            # f"_{'name'}" (a literal string substituted for a parameter): merge constant string fields into the literal text
+            self.generic_visit(n)
+            vals, changed = [], False
+            for v in n.values:
+                if isinstance(v, ast.FormattedValue) and v.conversion == -1 and v.format_spec is None \
+                        and isinstance(v.value, ast.Constant) and type(v.value.value) is str:
+                    v = ast.Constant(value=v.value.value)
+                    changed = True
+                if isinstance(v, ast.Constant) and vals and isinstance(vals[-1], ast.Constant):
+                    vals[-1] = ast.Constant(value=vals[-1].value + v.value)
+                    changed = True
+                else:
+                    vals.append(v)
+            if not changed:
+                return n
+            if all(isinstance(v, ast.Constant) for v in vals):
+                return ast.copy_location(ast.Constant(value="".join(v.value for v in vals)), n)
+            return ast.copy_location(ast.JoinedStr(values=vals), n)
     return F().visit(node)
 
 
@@ -275,6 +295,9 @@ class Normalizer:
             r = self.repo.resolve(mod, f.id)
             if r is not None and r.kind == "func" and r.mod is mod:
                 return f"{mod.name}.{f.id}", r.node, None, mod
+            if r is not None and r.kind == "func" and self.same_globals(r.node, r.mod, mod):
+                # a module-level helper of another module whose free names mean the same thing here
+                return f"{r.mod.name}.{r.name}", r.node, None, mod
             return None
         if isinstance(f, ast.Attribute):
             recv = f.value
@@ -307,6 +330,27 @@ class Normalizer:
                         return f"{owner.qual}.{f.attr}", node, recv, owner.mod
                     return f"{owner.qual}.{f.attr}", node, "unbound", owner.mod
         return None
+
+    def same_globals(self, fnode, hmod, mod):
+        """every free (global) name of the helper is a builtin in both modules or resolves to the same definition in both"""
+        import builtins
+        key = (id(fnode), mod.name)
+        cache = self.__dict__.setdefault("_sg_cache", {})
+        if key in cache:
+            return cache[key]
+        local = _locals_of(fnode)
+        ok = True
+        for n in ast.walk(fnode):
+            if isinstance(n, (ast.Global, ast.Nonlocal)):
+                ok = False
+            if isinstance(n, ast.Name) and isinstance(n.ctx, ast.Load) and n.id not in local:
+                a, b = self.repo.resolve(hmod, n.id), self.repo.resolve(mod, n.id)
+                if a is None and b is None and hasattr(builtins, n.id):
+                    continue
+                if a is None or b is None or a.kind != b.kind or a.node is not b.node or (a.kind in ("ext", "module") and (a.mod, a.node) != (b.mod, b.node)):
+                    ok = False
+        cache[key] = ok
+        return ok
 
     @staticmethod
     def _kind(node):
@@ -521,7 +565,8 @@ class Normalizer:
             out = [_fold(b) for b in out] or [ast.copy_location(ast.Pass(), s)]
             return mark(prelude + out), None
         if isinstance(s, ast.Assign) and s.value is c and len(s.targets) == 1 and \
-                (isinstance(s.targets[0], ast.Name) or _is_simple(s.targets[0])):
+                (isinstance(s.targets[0], ast.Name) or _is_simple(s.targets[0]) or (
+                    isinstance(s.targets[0], ast.Tuple) and all(isinstance(t, ast.Name) for t in s.targets[0].elts))):
             tgt = s.targets[0]
 
             def emit(v, node):
@@ -644,6 +689,116 @@ class Normalizer:
         fn.body = [ast.fix_missing_locations(S().visit(s)) for s in fn.body]
 
 
+def _call_resolver(repo):
+    """-> function (call, FuncInfo) -> (callee qual, [parameter names that can be passed positionally]) or None; callees are
+    resolved without type information: module functions, classes (their __init__), self.m / cls.m / Class.m."""
+    def params_of(fnode, drop_first):
+        a = fnode.args
+        if a.vararg is not None:
+            return None
+        ps = [x.arg for x in a.posonlyargs + a.args]
+        return ps[1:] if drop_first else ps
+
+    def callee(call, fi):
+        f = call.func
+        mod, cls = fi.mod, fi.cls
+        if isinstance(f, ast.Name):
+            if f.id in _locals_of(fi.node):
+                return None
+            r = repo.resolve(mod, f.id)
+            if r is None:
+                return None
+            if r.kind == "func":
+                ps = params_of(r.node, False)
+                return (f"{r.mod.name}.{r.name}", ps) if ps is not None else None
+            if r.kind == "class":
+                ci = repo.class_by_node.get(id(r.node))
+                m = ci.find_method("__init__") if ci else None
+                ps = params_of(m[1], True) if m else None
+                return (f"{m[0].qual}.__init__", ps) if ps is not None else None
+            return None
+        if isinstance(f, ast.Attribute) and isinstance(f.value, ast.Name):
+            a = fi.node.args
+            first = (a.posonlyargs + a.args)[0].arg if (a.posonlyargs + a.args) else None
+            kind_here = Normalizer._kind(fi.node)
+            if cls is not None and first and f.value.id == first and kind_here in ("plain", "other", "class"):
+                m = cls.find_method(f.attr)
+                if m is None or f.attr in m[0].props:
+                    return None
+                ps = params_of(m[1], Normalizer._kind(m[1]) != "static")
+                for sub in repo.subs.get(cls.key, []):
+                    if f.attr in sub.methods and params_of(sub.methods[f.attr], Normalizer._kind(sub.methods[f.attr]) != "static") != ps:
+                        return None
+                return (f"{m[0].qual}.{f.attr}", ps) if ps is not None else None
+            r = repo.resolve(mod, f.value.id) if f.value.id not in _locals_of(fi.node) else None
+            if r is not None and r.kind == "class":
+                ci = repo.class_by_node.get(id(r.node))
+                m = ci.find_method(f.attr) if ci else None
+                if m is None:
+                    return None
+                ps = params_of(m[1], Normalizer._kind(m[1]) == "class")
+                return (f"{m[0].qual}.{f.attr}", ps) if ps is not None else None
+        return None
+    return callee
+
+
+def _plain_calls(repo):
+    seen = set()
+    for fi in list(repo.funcs.values()):
+        if id(fi.node) in seen:
+            continue
+        seen.add(id(fi.node))
+        for c in ast.walk(fi.node):
+            if isinstance(c, ast.Call) and not any(isinstance(a, ast.Starred) for a in c.args) and not any(k.arg is None for k in c.keywords):
+                yield fi, c
+
+
+def call_conventions(repo):
+    """{callee qual: {parameter: "pos" | "kw"}}: how each parameter is passed at every resolved call site of the tree (a
+    parameter passed both ways somewhere is left out).  Frozen into reference/inventory.json by tools/freeze_inventory.py."""
+    callee = _call_resolver(repo)
+    seen = {}
+    for fi, c in _plain_calls(repo):
+        r = callee(c, fi)
+        if r is None:
+            continue
+        q, ps = r
+        d = seen.setdefault(q, {})
+        for i, _ in enumerate(c.args):
+            if i < len(ps):
+                d.setdefault(ps[i], set()).add("pos")
+        for k in c.keywords:
+            if k.arg in ps:
+                d.setdefault(k.arg, set()).add("kw")
+    return {q: {p: next(iter(v)) for p, v in sorted(d.items()) if len(v) == 1} for q, d in sorted(seen.items())}
+
+
+def canon_calls(repo, nz):
+    """K1: every resolved call passes each argument the way the confirmed tree passes it to that callee (positionally or by
+    keyword; table `call_conventions` of the inventory): `f(a, y=b)` -> `f(a, b)` where the confirmed tree always passes y
+    positionally, `g(a, b)` -> `g(a, y=b)` where it always names y.  Only a prefix of the keywords (in source order) / a suffix of
+    the positional arguments moves, so the evaluation order of the argument expressions is unchanged."""
+    conv = nz.inv.get("call_conventions", {})
+    callee = _call_resolver(repo)
+    n_moved = 0
+    for fi, c in _plain_calls(repo):
+        r = callee(c, fi)
+        if r is None:
+            continue
+        q, ps = r
+        cv = conv.get(q)
+        if not cv:
+            continue
+        while c.keywords and len(c.args) < len(ps) and c.keywords[0].arg == ps[len(c.args)] and cv.get(c.keywords[0].arg) == "pos":
+            c.args.append(c.keywords.pop(0).value)
+            n_moved += 1
+        while c.args and len(c.args) <= len(ps) and cv.get(ps[len(c.args) - 1]) == "kw":
+            name = ps[len(c.args) - 1]
+            c.keywords.insert(0, ast.keyword(arg=name, value=c.args.pop()))
+            n_moved += 1
+    nz.keyword_args_moved = n_moved
+
+
 def apply(repo):
     """Normalise every function of the loaded repository in place.  Returns the Normalizer (for evidence)."""
     inv = load_inventory()
@@ -652,6 +807,19 @@ def apply(repo):
     # iterate to a fixpoint over a bounded number of rounds so that helpers calling helpers are expanded.
     mconst_cache = {}
     nz.spelling_changes = 0
+    # D0: match statements and assignment expressions become if-chains and plain assignments before anything else
+    from .desugar import Desugar, desugar
+    dz = Desugar()
+    seen_d = set()
+    for fi in list(repo.funcs.values()):
+        if id(fi.node) not in seen_d:
+            seen_d.add(id(fi.node))
+            desugar(fi.node, dz)
+    nz.desugar = dz.changes
+    if os.environ.get("BSA_FREEZE_CONVENTIONS") == "1":
+        nz.conventions = call_conventions(repo)
+    else:
+        canon_calls(repo, nz)
     if os.environ.get("BSA_ALIAS", "1") != "0":
         seen0 = set()
         for fi in list(repo.funcs.values()):
@@ -719,7 +887,10 @@ def apply(repo):
             nz.alias_subst += k
             if k:
                 nz.spelling_changes += spelling(fi.node)      # literals moved into place may enable U1/U3/U5
-            nz.alias_subst += propagate_single_use(fi.node)
+            k2 = propagate_single_use(fi.node)
+            nz.alias_subst += k2
+            if k2:
+                nz.spelling_changes += spelling(fi.node)      # a dict literal moved into `f(**{..})` becomes keywords (U15)
     nz.shape_changes = 0
     if os.environ.get("BSA_SHAPE", "1") != "0":
         seen = set()
@@ -1082,6 +1253,47 @@ class Spelling(ast.NodeTransformer):
     # U2 / U3 / U5 / U6 on expressions
     def visit_Call(self, n):
         self.generic_visit(n)
+        # U20: zip(T1, .., Tk) / enumerate(T) over literal tuples of simple elements -> the literal tuple of rows
+        if isinstance(n.func, ast.Name) and n.func.id in ("zip", "enumerate") and not n.keywords and n.args \
+                and all(isinstance(a, (ast.Tuple, ast.List)) and all(isinstance(e, _SIMPLE_ELT) for e in a.elts) for a in n.args[:1 if n.func.id == "enumerate" else None]):
+            if n.func.id == "zip":
+                k = min(len(a.elts) for a in n.args)
+                if k <= 12:
+                    rows = [ast.Tuple(elts=[copy.deepcopy(a.elts[i]) for a in n.args], ctx=ast.Load()) for i in range(k)]
+                    self.changes += 1
+                    return ast.fix_missing_locations(ast.copy_location(ast.Tuple(elts=rows, ctx=ast.Load()), n))
+            elif len(n.args) == 1 or (len(n.args) == 2 and isinstance(n.args[1], ast.Constant) and type(n.args[1].value) is int):
+                st_ = n.args[1].value if len(n.args) == 2 else 0
+                if len(n.args[0].elts) <= 12:
+                    rows = [ast.Tuple(elts=[ast.Constant(value=st_ + i), copy.deepcopy(e)], ctx=ast.Load()) for i, e in enumerate(n.args[0].elts)]
+                    self.changes += 1
+                    return ast.fix_missing_locations(ast.copy_location(ast.Tuple(elts=rows, ctx=ast.Load()), n))
+        # U17: (lambda a, b: E)(x, y)  ->  E[a := x, b := y]   (arguments simple, or used at most once and call-free)
+        if isinstance(n.func, ast.Lambda) and not n.keywords and not any(isinstance(a, ast.Starred) for a in n.args):
+            la = n.func.args
+            ps = [a.arg for a in la.posonlyargs + la.args]
+            if not (la.vararg or la.kwarg or la.kwonlyargs or la.defaults) and len(ps) == len(n.args) \
+                    and not _has(n.func.body, (ast.Lambda, ast.NamedExpr, ast.ListComp, ast.SetComp, ast.DictComp, ast.GeneratorExp)):
+                uses = {p_: sum(1 for x in ast.walk(n.func.body) if isinstance(x, ast.Name) and x.id == p_) for p_ in ps}
+                if all(_is_simple(a) or (uses[p_] <= 1 and not _has(a, ast.Call)) for p_, a in zip(ps, n.args)):
+                    from .desugar import _Sub
+                    body = _Sub(dict(zip(ps, n.args))).visit(copy.deepcopy(n.func.body))
+                    self.changes += 1
+                    return ast.fix_missing_locations(ast.copy_location(body, n))
+        # U15: f(**{"a": x, "b": y}) with literal identifier keys -> f(a=x, b=y)
+        if any(k.arg is None and isinstance(k.value, ast.Dict) and k.value.keys and all(
+                isinstance(q, ast.Constant) and isinstance(q.value, str) and q.value.isidentifier() for q in k.value.keys) for k in n.keywords):
+            kws = []
+            for k in n.keywords:
+                if k.arg is None and isinstance(k.value, ast.Dict) and k.value.keys and all(
+                        isinstance(q, ast.Constant) and isinstance(q.value, str) and q.value.isidentifier() for q in k.value.keys):
+                    kws.extend(ast.keyword(arg=q.value, value=v) for q, v in zip(k.value.keys, k.value.values))
+                else:
+                    kws.append(k)
+            if len({k.arg for k in kws if k.arg}) == len([k for k in kws if k.arg]):
+                n.keywords = kws
+                self.changes += 1
+                ast.fix_missing_locations(n)
         if isinstance(n.func, ast.Name) and n.func.id == "getattr" and len(n.args) == 2 and not n.keywords \
                 and isinstance(n.args[1], ast.Constant) and isinstance(n.args[1].value, str) and n.args[1].value.isidentifier():
             self.changes += 1
@@ -1129,6 +1341,115 @@ class Spelling(ast.NodeTransformer):
                 return ast.fix_missing_locations(ast.copy_location(ast.JoinedStr(values=parts), n))
         return n
 
+    @staticmethod
+    def _literal_rows(g):
+        """rows of a comprehension clause over a literal table (no filters): [(names, values)] or None"""
+        if g.is_async or g.ifs or not isinstance(g.iter, (ast.Tuple, ast.List)) or not (1 <= len(g.iter.elts) <= 12):
+            return None
+        names = [g.target.id] if isinstance(g.target, ast.Name) else \
+            [t.id for t in g.target.elts] if isinstance(g.target, ast.Tuple) and all(isinstance(t, ast.Name) for t in g.target.elts) else None
+        if names is None:
+            return None
+        rows = []
+        for e in g.iter.elts:
+            vals = [e] if isinstance(g.target, ast.Name) else list(e.elts) if isinstance(e, ast.Tuple) else None
+            if vals is None or len(vals) != len(names) or not all(isinstance(v, _SIMPLE_ELT) for v in vals):
+                return None
+            rows.append(vals)
+        return names, rows
+
+    @staticmethod
+    def _inst(expr, names, vals):
+        x = copy.deepcopy(expr)
+        for nm, v in zip(names, vals):
+            x = _Rename(nm, v).visit(x)
+        return x
+
+    def visit_DictComp(self, n):
+        # U14: a comprehension over a literal table without filters -> the literal it builds
+        self.generic_visit(n)
+        r = self._literal_rows(n.generators[0]) if len(n.generators) == 1 else None
+        if r is None:
+            return n
+        names, rows = r
+        self.changes += 1
+        return ast.fix_missing_locations(ast.copy_location(ast.Dict(keys=[self._inst(n.key, names, v) for v in rows],
+                                                                    values=[self._inst(n.value, names, v) for v in rows]), n))
+
+    def visit_ListComp(self, n):
+        self.generic_visit(n)
+        r = self._literal_rows(n.generators[0]) if len(n.generators) == 1 else None
+        if r is None:
+            return n
+        names, rows = r
+        self.changes += 1
+        return ast.fix_missing_locations(ast.copy_location(ast.List(elts=[self._inst(n.elt, names, v) for v in rows], ctx=ast.Load()), n))
+
+    def visit_Tuple(self, n):
+        # U19: (a, *(b, c)) -> (a, b, c)
+        self.generic_visit(n)
+        if isinstance(n.ctx, ast.Load) and any(isinstance(e, ast.Starred) and isinstance(e.value, (ast.Tuple, ast.List)) for e in n.elts):
+            elts = []
+            for e in n.elts:
+                if isinstance(e, ast.Starred) and isinstance(e.value, (ast.Tuple, ast.List)):
+                    elts.extend(e.value.elts)
+                else:
+                    elts.append(e)
+            n.elts = elts
+            self.changes += 1
+        return n
+
+    def visit_BinOp(self, n):
+        # N3: integer arithmetic between literals
+        self.generic_visit(n)
+        if isinstance(n.left, ast.Constant) and isinstance(n.right, ast.Constant) and type(n.left.value) is int and type(n.right.value) is int \
+                and isinstance(n.op, (ast.Add, ast.Sub, ast.Mult)):
+            v = {ast.Add: lambda a, b: a + b, ast.Sub: lambda a, b: a - b, ast.Mult: lambda a, b: a * b}[type(n.op)](n.left.value, n.right.value)
+            self.changes += 1
+            return ast.copy_location(ast.Constant(value=v), n)
+        return n
+
+    def visit_BoolOp(self, n):
+        # N4: a leading constant operand decides or drops out: `True and x` -> x, `False and x` -> False, `False or x` -> x
+        self.generic_visit(n)
+        vals = list(n.values)
+        is_and = isinstance(n.op, ast.And)
+        while len(vals) > 1 and isinstance(vals[0], ast.Constant) and isinstance(vals[0].value, bool):
+            if vals[0].value is is_and:
+                vals.pop(0)
+                self.changes += 1
+            else:
+                self.changes += 1
+                return ast.copy_location(ast.Constant(value=vals[0].value), n)
+        if len(vals) == 1:
+            return vals[0]
+        n.values = vals
+        return n
+
+    def visit_Compare(self, n):
+        self.generic_visit(n)
+        # N3: a comparison between two integer / string literals
+        if len(n.ops) == 1 and isinstance(n.left, ast.Constant) and isinstance(n.comparators[0], ast.Constant) \
+                and type(n.left.value) in (int, str) and type(n.left.value) is type(n.comparators[0].value) \
+                and isinstance(n.ops[0], (ast.Eq, ast.NotEq, ast.Lt, ast.LtE, ast.Gt, ast.GtE)):
+            a, b = n.left.value, n.comparators[0].value
+            v = {ast.Eq: a == b, ast.NotEq: a != b, ast.Lt: a < b, ast.LtE: a <= b, ast.Gt: a > b, ast.GtE: a >= b}[type(n.ops[0])]
+            self.changes += 1
+            return ast.copy_location(ast.Constant(value=v), n)
+        return self._compare_in(n)
+
+    def _compare_in(self, n):
+        # U13: `x in (c1, .., ck)` over a literal tuple of constants with x a name / attribute chain -> x == c1 or .. or x == ck
+        if len(n.ops) == 1 and isinstance(n.ops[0], (ast.In, ast.NotIn)) and isinstance(n.comparators[0], (ast.Tuple, ast.List, ast.Set)) \
+                and 1 <= len(n.comparators[0].elts) <= 4 and all(isinstance(e, ast.Constant) and type(e.value) in (int, str, bytes) for e in n.comparators[0].elts) \
+                and _is_simple(n.left) and not isinstance(n.left, ast.Constant):
+            pos = isinstance(n.ops[0], ast.In)
+            tests = [ast.Compare(left=copy.deepcopy(n.left), ops=[ast.Eq() if pos else ast.NotEq()], comparators=[e]) for e in n.comparators[0].elts]
+            self.changes += 1
+            out = tests[0] if len(tests) == 1 else ast.BoolOp(op=ast.Or() if pos else ast.And(), values=tests)
+            return ast.fix_missing_locations(ast.copy_location(out, n))
+        return n
+
     def visit_Subscript(self, n):
         self.generic_visit(n)
         if isinstance(n.value, ast.Dict) and isinstance(n.ctx, ast.Load) and isinstance(n.slice, ast.Constant) \
@@ -1139,6 +1460,21 @@ class Spelling(ast.NodeTransformer):
                     return ast.copy_location(v, n)
         return n
 
+    def _boolish(self, e):
+        if isinstance(e, ast.Compare):
+            return True
+        if isinstance(e, ast.UnaryOp) and isinstance(e.op, ast.Not):
+            return True
+        if isinstance(e, ast.BoolOp):
+            return all(self._boolish(v) for v in e.values)
+        if isinstance(e, ast.Constant):
+            return isinstance(e.value, bool)
+        if isinstance(e, ast.Call) and isinstance(e.func, ast.Name) and e.func.id in ("isinstance", "bool", "callable", "hasattr"):
+            return True
+        if isinstance(e, ast.Name):
+            return e.id in getattr(self, "bool_locals", ())
+        return False
+
     # statements
     def sink_selected(self, out):
         """[..., If-chain assigning v = simple_i in every branch, S(v)] with v used nowhere else in S's block -> S moves into the
@@ -1146,13 +1482,32 @@ class Spelling(ast.NodeTransformer):
         i = 0
         while i + 1 < len(out):
             c, nxt = out[i], out[i + 1]
-            if isinstance(c, ast.If) and isinstance(nxt, (ast.Expr, ast.Assign, ast.Return)):
+            if isinstance(c, ast.If) and isinstance(nxt, (ast.Expr, ast.Assign, ast.Return, ast.If)):
                 branches, cur, v = [], c, None
                 ok = True
+                def sel(blk):
+                    # the selection is the branch's last statement; a constant flag set earlier in the branch and not mentioned
+                    # after that is moved to the end first (`flag = True; x = f()` -> `x = f(); flag = True`)
+                    if not blk:
+                        return False
+                    is_sel = lambda b_: isinstance(b_, ast.Assign) and len(b_.targets) == 1 and isinstance(b_.targets[0], ast.Name)
+                    if not (is_sel(blk[-1]) and isinstance(blk[-1].value, _SIMPLE_ELT)) or (
+                            isinstance(nxt, ast.If) and isinstance(strip_not_(nxt.test), ast.Name) and blk[-1].targets[0].id != strip_not_(nxt.test).id):
+                        want = strip_not_(nxt.test).id if isinstance(nxt, ast.If) and isinstance(strip_not_(nxt.test), ast.Name) else None
+                        for k_ in range(len(blk) - 1, -1, -1):
+                            b_ = blk[k_]
+                            if want and is_sel(b_) and b_.targets[0].id == want and isinstance(b_.value, ast.Constant) and not any(
+                                    isinstance(n, ast.Name) and n.id == want for x in blk[k_ + 1:] for n in ast.walk(x)) \
+                                    and not _has(blk[k_ + 1:], (ast.Return, ast.Raise, ast.Break, ast.Continue)):
+                                blk.append(blk.pop(k_))
+                                break
+                            if want and any(isinstance(n, ast.Name) and n.id == want for n in ast.walk(b_)):
+                                break
+                    return is_sel(blk[-1]) and isinstance(blk[-1].value, _SIMPLE_ELT)
+                strip_not_ = lambda t: t.operand if isinstance(t, ast.UnaryOp) and isinstance(t.op, ast.Not) else t
                 while True:
-                    if len(cur.body) == 1 and isinstance(cur.body[0], ast.Assign) and len(cur.body[0].targets) == 1 \
-                            and isinstance(cur.body[0].targets[0], ast.Name) and isinstance(cur.body[0].value, _SIMPLE_ELT):
-                        name = cur.body[0].targets[0].id
+                    if sel(cur.body):
+                        name = cur.body[-1].targets[0].id
                         if v is None:
                             v = name
                         ok = ok and name == v
@@ -1162,21 +1517,61 @@ class Spelling(ast.NodeTransformer):
                     if len(cur.orelse) == 1 and isinstance(cur.orelse[0], ast.If):
                         cur = cur.orelse[0]
                         continue
-                    if len(cur.orelse) == 1 and isinstance(cur.orelse[0], ast.Assign) and len(cur.orelse[0].targets) == 1 \
-                            and isinstance(cur.orelse[0].targets[0], ast.Name) and cur.orelse[0].targets[0].id == v \
-                            and isinstance(cur.orelse[0].value, _SIMPLE_ELT):
+                    if sel(cur.orelse) and cur.orelse[-1].targets[0].id == v:
                         branches.append(cur.orelse)
                     else:
                         ok = False
                     break
+                # a compound successor (an `if` on the selected value) or branches with more than the selection: only a flag
+                # that lives for exactly this hand-over (every load of it is in the successor) and constant selections
+                plain = all(len(b) == 1 for b in branches) and not isinstance(nxt, ast.If)
                 uses_next = sum(1 for n in ast.walk(nxt) if isinstance(n, ast.Name) and n.id == v and isinstance(n.ctx, ast.Load)) if v else 0
                 uses_rest = sum(1 for t in out[i + 2:] for n in ast.walk(t) if isinstance(n, ast.Name) and n.id == v) if v else 1
+                if ok and v and not plain:
+                    fn_ = getattr(self, "fn", None)
+                    all_loads = sum(1 for n in ast.walk(fn_) if isinstance(n, ast.Name) and n.id == v and isinstance(n.ctx, ast.Load)) if fn_ is not None else -1
+                    ok = all_loads == uses_next and all(isinstance(b[-1].value, ast.Constant) for b in branches) \
+                        and not any(isinstance(n, ast.Name) and n.id == v for b in branches for x in b[:-1] for n in ast.walk(x))
                 if ok and v and uses_next >= 1 and uses_rest == 0 and not any(
                         isinstance(n, ast.Name) and n.id == v and isinstance(n.ctx, ast.Store) for n in ast.walk(nxt)):
                     for b in branches:
-                        val = b[0].value
-                        b[0] = ast.fix_missing_locations(_Rename(v, val).visit(copy.deepcopy(nxt)))
+                        val = b[-1].value
+                        b[-1:] = self.block([ast.fix_missing_locations(_Rename(v, val).visit(copy.deepcopy(nxt)))]) or [ast.copy_location(ast.Pass(), nxt)]
                     del out[i + 1]
+                    self.changes += 1
+                    continue
+            i += 1
+        return out
+
+    def merge_dict_building(self, out):
+        """U18: `d = {..}` / `d = {}` / `d = dict()` directly followed by `d[<literal>] = v` statements -> one dict literal"""
+        i = 0
+        while i + 1 < len(out):
+            a = out[i]
+            if isinstance(a, ast.Assign) and len(a.targets) == 1 and isinstance(a.targets[0], ast.Name) and (
+                    (isinstance(a.value, ast.Dict) and all(isinstance(k, ast.Constant) for k in a.value.keys))
+                    or (isinstance(a.value, ast.Call) and isinstance(a.value.func, ast.Name) and a.value.func.id == "dict"
+                        and not a.value.args and not a.value.keywords)):
+                d = a.targets[0].id
+                b = out[i + 1]
+                if isinstance(b, ast.Assign) and len(b.targets) == 1 and isinstance(b.targets[0], ast.Subscript) \
+                        and isinstance(b.targets[0].value, ast.Name) and b.targets[0].value.id == d \
+                        and isinstance(b.targets[0].slice, ast.Constant) and type(b.targets[0].slice.value) in (str, int, bytes) \
+                        and not any(isinstance(n, ast.Name) and n.id == d for n in ast.walk(b.value)):
+                    if not isinstance(a.value, ast.Dict):
+                        a.value = ast.copy_location(ast.Dict(keys=[], values=[]), a.value)
+                    k = b.targets[0].slice
+                    pos = next((j for j, q in enumerate(a.value.keys) if q.value == k.value and type(q.value) is type(k.value)), None)
+                    if pos is None:
+                        a.value.keys.append(k)
+                        a.value.values.append(b.value)
+                    elif not _has(a.value.values[pos], ast.Call):
+                        a.value.values[pos] = b.value
+                    else:
+                        i += 1
+                        continue
+                    del out[i + 1]
+                    ast.fix_missing_locations(a)
                     self.changes += 1
                     continue
             i += 1
@@ -1194,9 +1589,86 @@ class Spelling(ast.NodeTransformer):
                 for h in s.handlers:
                     h.body = self.block(h.body)
             out.extend(self.stmt(s))
-        return self.sink_selected(out)
+        return self.sink_selected(self.merge_dict_building(out))
 
     def stmt(self, s):
+        # N4: `if True:` / `if False:` (a parameter replaced by the constant it was called with) -> the selected branch
+        if isinstance(s, ast.If) and isinstance(s.test, ast.Constant) and isinstance(s.test.value, bool):
+            self.changes += 1
+            return list(s.body if s.test.value else s.orelse)
+        # B1: x = <boolean expression>  ->  if <expression>: x = True else: x = False   (every operand is a bool)
+        if isinstance(s, ast.Assign) and len(s.targets) == 1 and isinstance(s.targets[0], (ast.Name, ast.Attribute)) \
+                and isinstance(s.value, ast.BoolOp) and all(self._boolish(v) for v in s.value.values) and not _has(s.value, ast.NamedExpr):
+            self.changes += 1
+            mk = lambda c: ast.Assign(targets=[copy.deepcopy(s.targets[0])], value=ast.Constant(value=c), lineno=s.lineno)
+            return [ast.fix_missing_locations(ast.copy_location(ast.If(test=s.value, body=[mk(True)], orelse=[mk(False)]), s))]
+        # T2: `a or b` / `a and b` used for its VALUE (an argument, an assigned or returned value) with a simple first operand
+        #     -> `a if a else b` / `b if a else a`, which T1 then turns into an if statement
+        if isinstance(s, (ast.Assign, ast.AugAssign, ast.Return, ast.Expr)) and s.value is not None:
+            def value_boolops(e, out):
+                if isinstance(e, (ast.Lambda, ast.ListComp, ast.SetComp, ast.DictComp, ast.GeneratorExp)):
+                    return
+                if isinstance(e, ast.BoolOp):
+                    out.append(e)
+                    return
+                if isinstance(e, ast.IfExp):
+                    value_boolops(e.body, out)
+                    value_boolops(e.orelse, out)
+                    return
+                if isinstance(e, ast.UnaryOp) and isinstance(e.op, ast.Not):
+                    return
+                for c_ in ast.iter_child_nodes(e):
+                    if isinstance(c_, ast.expr):
+                        value_boolops(c_, out)
+                    elif isinstance(c_, ast.keyword):
+                        value_boolops(c_.value, out)
+            found = []
+            value_boolops(s.value, found)
+            found = [b_ for b_ in found if _is_simple(b_.values[0]) and not isinstance(b_.values[0], ast.Constant)
+                     and not all(self._boolish(v) for v in b_.values) and not _has(b_, ast.NamedExpr)]
+            if found:
+                b_ = found[0]
+                a_ = b_.values[0]
+                rest = b_.values[1] if len(b_.values) == 2 else ast.BoolOp(op=b_.op, values=b_.values[1:])
+                if isinstance(b_.op, ast.Or):
+                    ife = ast.IfExp(test=copy.deepcopy(a_), body=copy.deepcopy(a_), orelse=rest)
+                else:
+                    ife = ast.IfExp(test=copy.deepcopy(a_), body=rest, orelse=copy.deepcopy(a_))
+                ast.copy_location(ife, b_)
+                from .desugar import Desugar as _D2
+                _D2._replace(s, "value", b_, ife)
+                ast.fix_missing_locations(s)
+                self.changes += 1
+                return self.block([s])
+        # T1: a conditional expression inside a simple statement, evaluated before anything with an effect
+        #     stmt[.. (a if c else b) ..]  ->  if c: stmt[.. a ..] else: stmt[.. b ..]
+        if isinstance(s, (ast.Assign, ast.AugAssign, ast.Return, ast.Expr)) and s.value is not None and not isinstance(s.value, ast.IfExp):
+            from .desugar import Desugar as _D, is_pure as _pure
+            scope_skip = set()
+            for n in ast.walk(s.value):
+                if isinstance(n, (ast.Lambda, ast.ListComp, ast.SetComp, ast.DictComp, ast.GeneratorExp)):
+                    scope_skip |= {id(x) for x in ast.walk(n) if x is not n}
+            tern = [n for n in ast.walk(s.value) if isinstance(n, ast.IfExp) and id(n) not in scope_skip]
+            tern.sort(key=lambda n: (n.lineno, n.col_offset))
+            if tern:
+                t = tern[0]
+                before = _D._before(s.value, t)
+                if before is not None and all(_pure(x) for x in before) and not _has(t.test, ast.NamedExpr):
+                    def variant(repl):
+                        c = copy.deepcopy(s)
+                        tt = next(n for n in ast.walk(c.value) if isinstance(n, ast.IfExp) and (n.lineno, n.col_offset) == (t.lineno, t.col_offset)
+                                  and ast.dump(n) == ast.dump(t))
+                        _D._replace(c, "value", tt, copy.deepcopy(repl))
+                        return c
+                    self.changes += 1
+                    new_if = ast.If(test=copy.deepcopy(t.test), body=[variant(t.body)], orelse=[variant(t.orelse)])
+                    return self.block([ast.fix_missing_locations(ast.copy_location(new_if, s))])
+        # B2: return <boolean and/or expression>  ->  if <expression>: return True else: return False
+        if isinstance(s, ast.Return) and isinstance(s.value, ast.BoolOp) and all(self._boolish(v) for v in s.value.values) \
+                and not _has(s.value, ast.NamedExpr):
+            self.changes += 1
+            mk = lambda c: ast.Return(value=ast.Constant(value=c))
+            return [ast.fix_missing_locations(ast.copy_location(ast.If(test=s.value, body=[mk(True)], orelse=[mk(False)]), s))]
         # U2 setattr
         if isinstance(s, ast.Expr) and isinstance(s.value, ast.Call) and isinstance(s.value.func, ast.Name) and s.value.func.id == "setattr" \
                 and len(s.value.args) == 3 and not s.value.keywords and isinstance(s.value.args[1], ast.Constant) \
@@ -1209,11 +1681,52 @@ class Spelling(ast.NodeTransformer):
                 and isinstance(s.value, (ast.Tuple, ast.List)) and len(s.targets[0].elts) == len(s.value.elts) \
                 and all(isinstance(t, ast.Name) for t in s.targets[0].elts) and not any(isinstance(e, ast.Starred) for e in s.value.elts):
             names = {t.id for t in s.targets[0].elts}
+            # (calls in the values are fine: binding a local name between two of them is invisible to them)
             if not any(isinstance(x, ast.Name) and x.id in names for e in s.value.elts for x in ast.walk(e)) \
-                    and not any(isinstance(x, ast.Call) for e in s.value.elts for x in ast.walk(e)):
+                    and not any(isinstance(x, (ast.Lambda, ast.NamedExpr, ast.Await, ast.Yield, ast.YieldFrom)) for e in s.value.elts for x in ast.walk(e)):
                 self.changes += 1
                 return [ast.fix_missing_locations(ast.copy_location(ast.Assign(targets=[t], value=e, lineno=s.lineno), s))
                         for t, e in zip(s.targets[0].elts, s.value.elts)]
+        # U4b: the same with attribute targets or a target that is read by a later element: the assignments are emitted in an
+        # order in which no value reads a target bound before it (call-free values, so evaluation order is immaterial)
+        if isinstance(s, ast.Assign) and len(s.targets) == 1 and isinstance(s.targets[0], (ast.Tuple, ast.List)) \
+                and isinstance(s.value, (ast.Tuple, ast.List)) and 2 <= len(s.targets[0].elts) == len(s.value.elts) <= 4 \
+                and all(_is_simple(t) and not isinstance(t, ast.Constant) for t in s.targets[0].elts) \
+                and not any(isinstance(e, ast.Starred) for e in s.value.elts) \
+                and not any(isinstance(x, (ast.Call, ast.Await, ast.NamedExpr, ast.Yield, ast.YieldFrom, ast.Lambda)) for e in s.value.elts for x in ast.walk(e)):
+            import itertools
+            tg = [ast.unparse(t) for t in s.targets[0].elts]
+
+            def reads(e, t):
+                for x in ast.walk(e):
+                    if isinstance(x, (ast.Name, ast.Attribute)):
+                        u = ast.unparse(x)
+                        if u == t or u.startswith(t + ".") or t.startswith(u + "."):
+                            return True
+                return False
+            n_ = len(tg)
+            for perm in itertools.permutations(range(n_)):
+                if all(not reads(s.value.elts[perm[j]], tg[perm[i]]) for i in range(n_) for j in range(i + 1, n_)):
+                    self.changes += 1
+                    return [ast.fix_missing_locations(ast.copy_location(
+                        ast.Assign(targets=[s.targets[0].elts[k]], value=s.value.elts[k], lineno=s.lineno), s)) for k in perm]
+        # U16: d.update({K: V for t in it [if c]})  ->  for t in it: [if c:] d[K] = V   (it is snapshotted with list() when it reads d:
+        #      the comprehension is complete before update() stores anything)
+        if isinstance(s, ast.Expr) and isinstance(s.value, ast.Call) and isinstance(s.value.func, ast.Attribute) and s.value.func.attr == "update" \
+                and len(s.value.args) == 1 and not s.value.keywords and isinstance(s.value.args[0], ast.DictComp) \
+                and len(s.value.args[0].generators) == 1 and _is_simple(s.value.func.value):
+            dc = s.value.args[0]
+            g = dc.generators[0]
+            if not g.is_async and not _has(dc, ast.NamedExpr):
+                d_ = s.value.func.value
+                it = g.iter
+                if ast.unparse(d_) in ast.unparse(it) and not (isinstance(it, ast.Call) and isinstance(it.func, ast.Name) and it.func.id == "list"):
+                    it = ast.Call(func=ast.Name(id="list", ctx=ast.Load()), args=[it], keywords=[])
+                body = [ast.Assign(targets=[ast.Subscript(value=copy.deepcopy(d_), slice=dc.key, ctx=ast.Store())], value=dc.value, lineno=s.lineno)]
+                for c_ in reversed(g.ifs):
+                    body = [ast.If(test=c_, body=body, orelse=[])]
+                self.changes += 1
+                return [ast.fix_missing_locations(ast.copy_location(ast.For(target=g.target, iter=it, body=body, orelse=[], lineno=s.lineno), s))]
         # U7 counting comprehension: x += sum(1 for v in it if c)  ->  for v in it: if c: x += 1
         if isinstance(s, ast.AugAssign) and isinstance(s.op, ast.Add) and isinstance(s.value, ast.Call) and isinstance(s.value.func, ast.Name) \
                 and s.value.func.id == "sum" and len(s.value.args) == 1 and not s.value.keywords \
@@ -1302,6 +1815,85 @@ class Spelling(ast.NodeTransformer):
                                         orelse=chain)]
                     self.changes += 1
                     return [ast.fix_missing_locations(ast.copy_location(chain[0], s))]
+        # U12 first candidate of an unbounded count: x = next(E for v in itertools.count(s) if C)  (no default)
+        #       -> v' = s; while not C': v' += 1; <walrus names of C bound to their values>; x = E
+        #     (C' is C with every `(n := e)` replaced by the pure e)
+        if isinstance(s, ast.Assign) and len(s.targets) == 1 and isinstance(s.targets[0], ast.Name) and isinstance(s.value, ast.Call) \
+                and isinstance(s.value.func, ast.Name) and s.value.func.id == "next" and len(s.value.args) == 1 and not s.value.keywords \
+                and isinstance(s.value.args[0], ast.GeneratorExp) and len(s.value.args[0].generators) == 1:
+            ge = s.value.args[0]
+            g = ge.generators[0]
+            it = g.iter
+            if not g.is_async and isinstance(g.target, ast.Name) and isinstance(it, ast.Call) and not it.keywords and len(it.args) <= 1 \
+                    and ast.unparse(it.func) in ("itertools.count", "count") and len(g.ifs) >= 1 \
+                    and (not it.args or not _has(it.args[0], ast.Call)):
+                from .desugar import is_pure
+                v = g.target.id
+                v2 = f"{v}__g"
+                start = it.args[0] if it.args else ast.Constant(value=0)
+                cond = g.ifs[0] if len(g.ifs) == 1 else ast.BoolOp(op=ast.And(), values=list(g.ifs))
+                ws = [n for n in ast.walk(cond) if isinstance(n, ast.NamedExpr)]
+                if all(isinstance(w.target, ast.Name) and is_pure(w.value) for w in ws) and not _has(ge.elt, ast.NamedExpr):
+                    class W(ast.NodeTransformer):
+                        def visit_NamedExpr(self, n):
+                            return self.visit(n.value)
+                    ren = lambda e: _Rename(v, ast.Name(id=v2, ctx=ast.Load())).visit(copy.deepcopy(e))
+                    pure_cond = ren(W().visit(copy.deepcopy(cond)))
+                    if is_pure(pure_cond) or not _has(pure_cond, (ast.Await, ast.Yield, ast.YieldFrom, ast.Lambda)):
+                        test = negate(pure_cond)
+                        out = [ast.Assign(targets=[ast.Name(id=v2, ctx=ast.Store())], value=start, lineno=s.lineno),
+                               ast.While(test=test, body=[ast.AugAssign(target=ast.Name(id=v2, ctx=ast.Store()), op=ast.Add(),
+                                                                          value=ast.Constant(value=1))], orelse=[])]
+                        for w in ws:
+                            out.append(ast.Assign(targets=[ast.Name(id=w.target.id, ctx=ast.Store())], value=ren(W().visit(copy.deepcopy(w.value))),
+                                                  lineno=s.lineno))
+                        out.append(ast.Assign(targets=[copy.deepcopy(s.targets[0])], value=ren(W().visit(copy.deepcopy(ge.elt))), lineno=s.lineno))
+                        self.changes += 1
+                        return [ast.fix_missing_locations(ast.copy_location(x, s)) for x in out]
+        # U11 first match over a literal table, statement form:
+        #   for a[, b] in ((..), ..): if C: B; break  [else: E]   ->   if C1: B1 elif C2: B2 ... [else: E]
+        if isinstance(s, ast.For) and isinstance(s.iter, (ast.Tuple, ast.List)) and 1 <= len(s.iter.elts) <= 10 and len(s.body) == 1 \
+                and isinstance(s.body[0], ast.If) and not s.body[0].orelse and s.body[0].body and isinstance(s.body[0].body[-1], ast.Break) \
+                and not _has(s.body[0].body[:-1], (ast.Break, ast.Continue)):
+            names = [s.target.id] if isinstance(s.target, ast.Name) else \
+                [t.id for t in s.target.elts] if isinstance(s.target, ast.Tuple) and all(isinstance(t, ast.Name) for t in s.target.elts) else None
+            rows = []
+            for e in s.iter.elts:
+                vals = [e] if isinstance(s.target, ast.Name) else list(e.elts) if isinstance(e, ast.Tuple) else None
+                if names is None or vals is None or len(vals) != len(names) or not all(isinstance(v, _SIMPLE_ELT) for v in vals):
+                    rows = None
+                    break
+                rows.append(vals)
+            inner = s.body[0]
+            stored = {x.id for b in inner.body for x in ast.walk(b) if isinstance(x, ast.Name) and isinstance(x.ctx, ast.Store)}
+            if rows and names and not (stored & set(names)):
+                def inst(node, vals):
+                    x = copy.deepcopy(node)
+                    for nm, v in zip(names, vals):
+                        x = _Rename(nm, v).visit(x)
+                    return x
+                chain = list(s.orelse)
+                for vals in reversed(rows):
+                    body = [inst(b, vals) for b in inner.body[:-1]] or [ast.Pass()]
+                    chain = [ast.If(test=inst(inner.test, vals), body=body, orelse=chain)]
+                self.changes += 1
+                return self.block([ast.fix_missing_locations(ast.copy_location(chain[0], s))])
+        # U1b unroll with a tuple target over a literal table of rows
+        if isinstance(s, ast.For) and isinstance(s.target, ast.Tuple) and all(isinstance(t, ast.Name) for t in s.target.elts) and not s.orelse \
+                and isinstance(s.iter, (ast.Tuple, ast.List)) and 1 <= len(s.iter.elts) <= 8 \
+                and all(isinstance(e, ast.Tuple) and len(e.elts) == len(s.target.elts) and all(isinstance(v, _SIMPLE_ELT) for v in e.elts) for e in s.iter.elts) \
+                and not _has(s.body, (ast.Break, ast.Continue, ast.Return)):
+            names = [t.id for t in s.target.elts]
+            if not any(isinstance(x, ast.Name) and x.id in names and isinstance(x.ctx, ast.Store) for b in s.body for x in ast.walk(b)):
+                out = []
+                for e in s.iter.elts:
+                    for b in s.body:
+                        nb = copy.deepcopy(b)
+                        for nm, v in zip(names, e.elts):
+                            nb = _Rename(nm, v).visit(nb)
+                        out.append(ast.fix_missing_locations(nb))
+                self.changes += 1
+                return self.block(out)
         # U1 unroll
         if isinstance(s, ast.For) and isinstance(s.target, ast.Name) and not s.orelse and isinstance(s.iter, (ast.Tuple, ast.List)) \
                 and 1 <= len(s.iter.elts) <= 8 and all(isinstance(e, _SIMPLE_ELT) for e in s.iter.elts) \
@@ -1318,8 +1910,42 @@ class Spelling(ast.NodeTransformer):
         return [s]
 
 
+def _bool_locals(fn):
+    """locals that are only ever bound to True / False / comparisons (and are not parameters)"""
+    vals = {}
+    params = {a.arg for a in fn.args.posonlyargs + fn.args.args + fn.args.kwonlyargs}
+    for n in ast.walk(fn):
+        if isinstance(n, ast.Assign):
+            for t in n.targets:
+                if isinstance(t, ast.Name):
+                    vals.setdefault(t.id, []).append(n.value)
+                else:
+                    for x in ast.walk(t):
+                        if isinstance(x, ast.Name) and isinstance(x.ctx, ast.Store):
+                            vals.setdefault(x.id, []).append(None)
+        elif isinstance(n, ast.Name) and isinstance(n.ctx, (ast.Store, ast.Del)):
+            vals.setdefault(n.id, [])
+        elif isinstance(n, (ast.AugAssign, ast.AnnAssign, ast.NamedExpr)) and isinstance(n.target, ast.Name):
+            vals.setdefault(n.target.id, []).append(None)
+        elif isinstance(n, (ast.For, ast.comprehension)):
+            for x in ast.walk(n.target):
+                if isinstance(x, ast.Name):
+                    vals.setdefault(x.id, []).append(None)
+        elif isinstance(n, (ast.withitem,)) and n.optional_vars is not None:
+            for x in ast.walk(n.optional_vars):
+                if isinstance(x, ast.Name):
+                    vals.setdefault(x.id, []).append(None)
+        elif isinstance(n, ast.ExceptHandler) and n.name:
+            vals.setdefault(n.name, []).append(None)
+    ok = lambda v: v is not None and (isinstance(v, ast.Compare) or (isinstance(v, ast.Constant) and isinstance(v.value, bool))
+                                      or (isinstance(v, ast.UnaryOp) and isinstance(v.op, ast.Not)))
+    return {k for k, vs in vals.items() if vs and k not in params and all(ok(v) for v in vs)}
+
+
 def spelling(fn):
     sp = Spelling()
+    sp.bool_locals = _bool_locals(fn)
+    sp.fn = fn
     fn.body = sp.block(fn.body)
     return sp.changes
 
@@ -1352,6 +1978,23 @@ def propagate_single_use(fn):
                     del stmts[i]
                     n_sub += 1
                     continue
+            # P6b: `d = {literal keys: ..}` directly followed by a simple statement whose only use of d is `f(.., **d)` with a
+            # simple callee and simple positional arguments -> the literal moves into the call (U15 then names the keywords)
+            if isinstance(s, ast.Assign) and len(s.targets) == 1 and isinstance(s.targets[0], ast.Name) and isinstance(s.value, ast.Dict) \
+                    and s.value.keys and all(isinstance(k, ast.Constant) and isinstance(k.value, str) for k in s.value.keys) \
+                    and isinstance(nxt, (ast.Return, ast.Expr, ast.Assign)):
+                name = s.targets[0].id
+                if loads.get(name) == 1 and stores.get(name) == 1 and name not in params:
+                    hit = [c for c in ast.walk(nxt) if isinstance(c, ast.Call) and any(
+                        k.arg is None and isinstance(k.value, ast.Name) and k.value.id == name for k in c.keywords)]
+                    if len(hit) == 1 and _is_simple(hit[0].func) and all(_is_simple(a) for a in hit[0].args) \
+                            and all(k.arg is None and isinstance(k.value, ast.Name) and k.value.id == name for k in hit[0].keywords) \
+                            and (getattr(nxt, "value", None) is hit[0]):
+                        for k in hit[0].keywords:
+                            k.value = s.value
+                        del stmts[i]
+                        n_sub += 1
+                        continue
             i += 1
         for s in stmts:
             for fld in ("body", "orelse", "finalbody"):
